@@ -92,6 +92,9 @@ fn record(rep: &mut Report, part: &str, label: &str, desc: &str, spec: &Spec, v:
 pub fn run(opts: &Opts) -> Report {
     let mut rep = Report::new("C19");
     let want = |p: &str| opts.part.as_deref().map_or(true, |x| x == p);
+    if want("nested") {
+        crate::props::c19n::run(&mut rep, opts);
+    }
     let exec_filter = |ei: usize| -> bool {
         match opts.rest.iter().position(|a| a == "--exec") {
             Some(p) => opts.rest.get(p + 1).and_then(|s| s.parse::<usize>().ok()) == Some(ei),
